@@ -4,7 +4,7 @@ use std::collections::BTreeMap;
 use proptest::prelude::*;
 use serde::{Deserialize, Serialize};
 use serde_json::{json, Value};
-use sliding_deque::traits::{PushTruncateContainer, SortedDequeItem, SortedDequeMarker};
+use sliding_deque::traits::{PushTruncateContainer, SortedDequeComparator, SortedDequeItem, SortedDequeMarker};
 use sliding_deque::SortedDeque;
 use smallvec::SmallVec;
 
@@ -34,6 +34,10 @@ pub enum Convention {
     PairSmall,
     /// Whole-item ordering through `SortedDequeItem`, in a `Vec`.
     ItemVec,
+    /// `(i64, Option<u32>)` pairs with negative and positive keys far apart, in a `SmallVec<[_; 2]>`.
+    WideSmall,
+    /// A user-supplied comparator (reverse order on stored keys) and eraser, in a `Vec`.
+    ReverseVec,
 }
 
 #[derive(Clone, Debug, Serialize, Deserialize)]
@@ -66,6 +70,8 @@ impl SortedDequeItem for Item {
 trait Conv {
     type Item: Copy + std::fmt::Debug + PartialEq;
     type Key;
+    /// The comparator / eraser the deque is instantiated with (`()` for the built-in conventions).
+    type Marker: SortedDequeMarker<Self::Item, Key = Self::Key> + Clone + Default;
     fn live(key: u8, value: u8) -> Self::Item;
     fn erased(key: u8) -> Self::Item;
     /// Lookup key for `key`, given the value the reference holds for it (if any).
@@ -80,6 +86,7 @@ struct PairConv;
 impl Conv for PairConv {
     type Item = (u8, Option<u8>);
     type Key = u8;
+    type Marker = ();
     fn live(key: u8, value: u8) -> Self::Item {
         (key, Some(value))
     }
@@ -102,6 +109,7 @@ struct ItemConv;
 impl Conv for ItemConv {
     type Item = Item;
     type Key = Item;
+    type Marker = ();
     fn live(key: u8, value: u8) -> Item {
         Item {
             key,
@@ -131,6 +139,82 @@ impl Conv for ItemConv {
         } else {
             Self::live(key, value)
         }
+    }
+}
+
+/// Wide signed keys with the built-in pair convention: logical key k is stored as
+/// (k - 100) * 1_000_003 (negative and positive, far apart), values as u32.
+struct WideConv;
+fn wide(key: u8) -> i64 {
+    (key as i64 - 100) * 1_000_003
+}
+impl Conv for WideConv {
+    type Item = (i64, Option<u32>);
+    type Key = i64;
+    type Marker = ();
+    fn live(key: u8, value: u8) -> Self::Item {
+        (wide(key), Some(value as u32 * 65_537))
+    }
+    fn erased(key: u8) -> Self::Item {
+        (wide(key), None)
+    }
+    fn lookup(key: u8, _value: Option<u8>) -> i64 {
+        wide(key)
+    }
+    fn parts(item: &Self::Item) -> (u8, Option<u8>) {
+        ((item.0 / 1_000_003 + 100) as u8, item.1.map(|v| (v / 65_537) as u8))
+    }
+    fn not_greater(last_key: u8, _last_value: u8, back: u8, value: u8) -> Self::Item {
+        Self::live(last_key - back % (last_key + 1), value)
+    }
+}
+
+/// A user-supplied comparator: keys are stored negated (255 - k) and compared in reverse,
+/// so that the deque's order is the reverse of the stored keys' natural order; erasure is a flag.
+#[derive(Clone, Copy, Debug, PartialEq)]
+struct RevItem {
+    stored: u8,
+    value: u8,
+    erased: bool,
+}
+#[derive(Clone, Default)]
+struct RevMarker;
+impl SortedDequeComparator<RevItem> for RevMarker {
+    type Key = u8;
+    fn extract_key(&self, item: &RevItem) -> u8 {
+        item.stored
+    }
+    fn cmp(&self, x: &u8, y: &u8) -> std::cmp::Ordering {
+        y.cmp(x)
+    }
+    fn is_erased(&self, item: &RevItem) -> bool {
+        item.erased
+    }
+}
+impl SortedDequeMarker<RevItem> for RevMarker {
+    fn mark_erased(&self, item: &mut RevItem) {
+        item.erased = true;
+    }
+}
+struct RevConv;
+impl Conv for RevConv {
+    type Item = RevItem;
+    type Key = u8;
+    type Marker = RevMarker;
+    fn live(key: u8, value: u8) -> RevItem {
+        RevItem { stored: 255 - key, value, erased: false }
+    }
+    fn erased(key: u8) -> RevItem {
+        RevItem { stored: 255 - key, value: 0, erased: true }
+    }
+    fn lookup(key: u8, _value: Option<u8>) -> u8 {
+        255 - key
+    }
+    fn parts(item: &RevItem) -> (u8, Option<u8>) {
+        (255 - item.stored, if item.erased { None } else { Some(item.value) })
+    }
+    fn not_greater(last_key: u8, _last_value: u8, back: u8, value: u8) -> RevItem {
+        Self::live(last_key - back % (last_key + 1), value)
     }
 }
 
@@ -196,11 +280,10 @@ fn universe() -> u8 {
     UNIVERSE_NOW.with(|u| u.get())
 }
 
-fn observe<C, V>(deque: &SortedDeque<C>, model: &Model, after: &str) -> Result<(), Fail>
+fn observe<C, V>(deque: &SortedDeque<C, V::Marker>, model: &Model, after: &str) -> Result<(), Fail>
 where
     V: Conv,
     C: PushTruncateContainer<Item = V::Item> + Clone + Default,
-    (): SortedDequeMarker<V::Item, Key = V::Key>,
 {
     let r = panics::catch(|| -> Result<(), String> {
         let got: Vec<(u8, Option<u8>)> = deque.iter().map(V::parts).collect();
@@ -239,11 +322,10 @@ where
 }
 
 /// Applies one operation; `Ok(false)` means the case ends (expected panic).
-fn step<C, V>(deque: &mut SortedDeque<C>, model: &mut Model, op: &Op, stats: &mut Stats) -> Result<bool, Fail>
+fn step<C, V>(deque: &mut SortedDeque<C, V::Marker>, model: &mut Model, op: &Op, stats: &mut Stats) -> Result<bool, Fail>
 where
     V: Conv,
     C: PushTruncateContainer<Item = V::Item> + Clone + Default,
-    (): SortedDequeMarker<V::Item, Key = V::Key>,
 {
     let name = match op {
         Op::PushNext { .. } => "push_back_or_panic",
@@ -361,9 +443,8 @@ fn run_typed<C, V>(case: &Case) -> CaseResult
 where
     V: Conv,
     C: PushTruncateContainer<Item = V::Item> + Clone + Default,
-    (): SortedDequeMarker<V::Item, Key = V::Key>,
 {
-    let mut deque: SortedDeque<C> = Default::default();
+    let mut deque: SortedDeque<C, V::Marker> = Default::default();
     let mut model = Model::default();
     let mut stats = Stats::default();
     observe::<C, V>(&deque, &model, "new")?;
@@ -396,6 +477,8 @@ fn check_case_inner(case: &Case) -> CaseResult {
         Convention::PairVec => run_typed::<Vec<(u8, Option<u8>)>, PairConv>(case),
         Convention::PairSmall => run_typed::<SmallVec<[(u8, Option<u8>); 4]>, PairConv>(case),
         Convention::ItemVec => run_typed::<Vec<Item>, ItemConv>(case),
+        Convention::WideSmall => run_typed::<SmallVec<[(i64, Option<u32>); 2]>, WideConv>(case),
+        Convention::ReverseVec => run_typed::<Vec<RevItem>, RevConv>(case),
     }
 }
 
@@ -415,7 +498,7 @@ fn alphabet() -> Vec<Op> {
 }
 
 fn dfs<C, V>(
-    deque: &SortedDeque<C>,
+    deque: &SortedDeque<C, V::Marker>,
     model: &Model,
     stats: Stats,
     path: &mut Vec<Op>,
@@ -426,7 +509,6 @@ fn dfs<C, V>(
 where
     V: Conv,
     C: PushTruncateContainer<Item = V::Item> + Clone + Default,
-    (): SortedDequeMarker<V::Item, Key = V::Key>,
 {
     if path.len() == depth {
         return Ok(());
@@ -466,7 +548,6 @@ fn exhaustive<C, V>(ctx: &Ctx, rep: &mut Report, convention: Convention, depth: 
 where
     V: Conv,
     C: PushTruncateContainer<Item = V::Item> + Clone + Default,
-    (): SortedDequeMarker<V::Item, Key = V::Key>,
 {
     let group = format!("exhaustive-{convention:?}");
     let alphabet = alphabet();
@@ -478,7 +559,7 @@ where
             if !ctx.owns(index) {
                 continue;
             }
-            let mut deque: SortedDeque<C> = Default::default();
+            let mut deque: SortedDeque<C, V::Marker> = Default::default();
             let mut model = Model::default();
             let mut stats = Stats::default();
             let mut path = vec![];
@@ -527,7 +608,7 @@ fn op_strategy() -> impl Strategy<Value = Op> {
 
 fn case_strategy(max_ops: usize) -> impl Strategy<Value = Case> {
     (
-        prop_oneof![Just(Convention::PairVec), Just(Convention::PairSmall), Just(Convention::ItemVec)],
+        prop_oneof![3 => Just(Convention::PairVec), 3 => Just(Convention::PairSmall), 3 => Just(Convention::ItemVec), 2 => Just(Convention::WideSmall), 2 => Just(Convention::ReverseVec)],
         proptest::collection::vec(op_strategy(), 0..max_ops),
         // Optionally end on a push that must panic.
         proptest::option::weighted(0.15, (any::<u8>(), any::<u8>())),
@@ -544,7 +625,7 @@ fn case_strategy(max_ops: usize) -> impl Strategy<Value = Case> {
 /// middle in a generated order, then pop / remove at the ends and keep going.
 fn long_run_strategy() -> impl Strategy<Value = Case> {
     (
-        prop_oneof![Just(Convention::PairVec), Just(Convention::PairSmall), Just(Convention::ItemVec)],
+        prop_oneof![3 => Just(Convention::PairVec), 3 => Just(Convention::PairSmall), 3 => Just(Convention::ItemVec), 2 => Just(Convention::WideSmall), 2 => Just(Convention::ReverseVec)],
         20u8..250,
         any::<u8>(),
         any::<u8>(),
@@ -593,6 +674,9 @@ pub fn run(ctx: &Ctx, rep: &mut Report) {
     exhaustive::<Vec<(u8, Option<u8>)>, PairConv>(ctx, rep, Convention::PairVec, depth);
     exhaustive::<SmallVec<[(u8, Option<u8>); 4]>, PairConv>(ctx, rep, Convention::PairSmall, depth);
     exhaustive::<Vec<Item>, ItemConv>(ctx, rep, Convention::ItemVec, depth);
+    // Wide signed keys and a user-supplied reversed comparator, one level less deep.
+    exhaustive::<SmallVec<[(i64, Option<u32>); 2]>, WideConv>(ctx, rep, Convention::WideSmall, depth - 1);
+    exhaustive::<Vec<RevItem>, RevConv>(ctx, rep, Convention::ReverseVec, depth - 1);
     rep.add_sample(
         "exhaustive-PairVec",
         json!({"note": "every sequence over the alphabet up to max_depth, e.g.", "ops": ["PushNext", "PushNext", "PushNext", "Remove(1)", "PopFirst", "PopLast"]}),
@@ -610,7 +694,7 @@ fn replay(_ctx: &Ctx, _group: &str, case: &Value) -> CaseResult {
 pub fn def() -> PropDef {
     PropDef {
         id: "C16",
-        rule: "Cases are operation sequences (push with increasing keys, push of an already-erased item, push of a non-increasing key which must panic, find, remove, pop_first, pop_last, clear) on SortedDeque, for (key, Option<value>) pairs over Vec and SmallVec<[_;4]> and for a whole-item SortedDequeItem type over Vec, over a key universe of 8 (long-runs: 20..250 keys pushed, a contiguous run of the middle keys erased in ascending / descending / shuffled order plus scattered erasures, then pops at both ends and a random tail, over a universe of 250). After every step iteration order, first, last, is_empty and find for every key of the universe are compared with a BTreeMap. Part 1 enumerates all sequences over a 12-symbol alphabet up to max_depth; part 2 draws random sequences of up to 150 operations. Non-trivial: an end removal (pop or remove) whose neighbour in insertion order is a tombstone left by a middle removal, or a find of a key lying between two tombstones. Distinct: by enumeration for part 1, by hash of the serialised case for part 2.",
+        rule: "Cases are operation sequences (push with increasing keys, push of an already-erased item, push of a non-increasing key which must panic, find, remove, pop_first, pop_last, clear) on SortedDeque, for (key, Option<value>) pairs over Vec and SmallVec<[_;4]> for a whole-item SortedDequeItem type over Vec, for (i64, Option<u32>) pairs with negative and positive keys far apart over SmallVec<[_;2]>, and for a user-supplied comparator and eraser (reverse order on the stored keys, erasure as a flag) over Vec, over a key universe of 8 (long-runs: 20..250 keys pushed, a contiguous run of the middle keys erased in ascending / descending / shuffled order plus scattered erasures, then pops at both ends and a random tail, over a universe of 250). After every step iteration order, first, last, is_empty and find for every key of the universe are compared with a BTreeMap. Part 1 enumerates all sequences over a 12-symbol alphabet up to max_depth; part 2 draws random sequences of up to 150 operations. Non-trivial: an end removal (pop or remove) whose neighbour in insertion order is a tombstone left by a middle removal, or a find of a key lying between two tombstones. Distinct: by enumeration for part 1, by hash of the serialised case for part 2.",
         assumptions: &[
             "whole-item convention is only exercised with distinct keys (erasing must not reorder an item relative to its neighbours)",
             "harness built with debug assertions on",
